@@ -27,7 +27,7 @@ EXPLANATION = (
 )
 TECHNIQUE = "static analysis: abstract interpretation of the import path over a fault matrix (faults x flag combinations) with a pandas model; defaults and flag forwarding rules"
 
-ARRAYS_QUICK = [("t", "a"), ("a", "s", "b"), ("n", "a")]
+ARRAYS_QUICK = [("t", "a"), ("a", "s", "b"), ("n", "a"), ("z", "a")]
 ARRAYS_THOROUGH = ARRAYS_QUICK + [("a",), ("n", "t"), ("b", "t", "a")]
 
 
